@@ -50,6 +50,8 @@ def dict_keys_of_returns(fn_node):
 
 def run(ctx: Ctx):
     no_memoised_readers(ctx)
+    dataset_files_in_order(ctx)
+    directory_listings_sorted(ctx)
     hparams_keep_policy(ctx)
     # ---------------- a: npz
     sv = ctx.repo.get_function(DU, "save_tensordict_to_npz")
@@ -324,6 +326,13 @@ def run(ctx: Ctx):
     restored = [e for e in its.events if e.kind == "methcall" and e.data[1] == "set_state" and e.data[0] is rng and len(e.data[2]) == 1 and e.data[2][0].op == "sub" and e.data[2][0].args[0] is par
                 and vg.is_const(e.data[2][0].args[1], "rng") and not e.conds]
     s_ok = updates_dict(its, par) and isinstance(rng, vg.S) and rng.op == "call" and bool(restored)
+    # order: state["rng"] is the saved STATE TENSOR; __dict__.update(state) binds it to self.rng, so the generator has to be
+    # rebuilt after the update (the other way round the copy holds a tensor where the generator should be, and copying or
+    # pickling the copy fails in __getstate__)
+    upd_lines = [c.lineno for c in ast.walk(ss.node) if isinstance(c, ast.Call) and isinstance(c.func, ast.Attribute) and c.func.attr == "update" and ast.unparse(c.func.value) == "self.__dict__"]
+    rng_lines = [st.lineno for st in ast.walk(ss.node) if isinstance(st, ast.Assign) and any(ast.unparse(t) == "self.rng" for t in st.targets)]
+    order_ok = bool(upd_lines) and bool(rng_lines) and max(upd_lines) < min(rng_lines)
+    s_ok = s_ok and order_ok
     ctx.ob("C19.d", "RL4COEnvBase:getstate/setstate", g_ok and s_ok, gs.loc, f"rng pickled as state['rng'].get_state() in a copy of __dict__: {g_ok}; restored into a fresh generator with set_state(state['rng']) after __dict__.update(state): {s_ok}", construct="RL4COEnvBase:pickle-pair")
     rb = ctx.repo.get_class("rl4co/models/rl/reinforce/baselines.py", "RolloutBaseline")
     gs, ss = rb.methods["__getstate__"], rb.methods["__setstate__"]
@@ -364,6 +373,89 @@ def run(ctx: Ctx):
         ok = strip_once and select and from_ckpt and before
         why = f"baseline.* entries of the checkpoint's state_dict are selected: {select and from_ckpt}; the 'baseline.' prefix is stripped once: {strip_once}; after setup() and post_setup_hook() created the modules that receive the state: {before}"
     ctx.ob("C19.e", "REINFORCE.load_from_checkpoint:prefix", ok, lc.loc, why, construct="REINFORCE.load_from_checkpoint:prefix")
+
+
+def dataset_files_in_order(ctx: Ctx):
+    """C19.g several validation / test files are matched to their dataloader names BY POSITION (`zip(names, files)` in
+    `dataset`; names default to "0", "1", ...).  The list of paths built in the constructor must therefore keep the order in
+    which the files were given: element-wise join, no sorted / set / reversed in between."""
+    base = ctx.repo.get_class("rl4co/envs/common/base.py", "RL4COEnvBase")
+    ini, ds = base.methods.get("__init__"), base.methods.get("dataset")
+    if ini is None or ds is None:
+        raise AnalysisError("RL4COEnvBase.__init__ / dataset not found")
+    ctx.fn(ini)
+    ctx.fn(ds)
+    helpers = [n for n in ast.walk(ini.node) if isinstance(n, ast.FunctionDef) and n is not ini.node]
+    used = {}
+    for st in ast.walk(ini.node):
+        if isinstance(st, ast.Assign) and isinstance(st.targets[0], ast.Attribute) and st.targets[0].attr in ("val_file", "test_file") and isinstance(st.value, ast.Call) and isinstance(st.value.func, ast.Name):
+            used[st.targets[0].attr] = st.value.func.id
+    if set(used) != {"val_file", "test_file"} or len(set(used.values())) != 1:
+        raise AnalysisError("RL4COEnvBase.__init__: val_file / test_file are not built by one helper")
+    h = [x for x in helpers if x.name == list(used.values())[0]]
+    if len(h) != 1:
+        raise AnalysisError("RL4COEnvBase.__init__: path helper not found")
+    h = h[0]
+    par = h.args.args[0].arg
+    rets = [r.value for r in ast.walk(h) if isinstance(r, ast.Return) and r.value is not None and not (isinstance(r.value, ast.Constant) and r.value.value is None)]
+    seqs = [r for r in rets if not (isinstance(r, ast.Call) and ast.unparse(r.func).endswith("join") and not any(isinstance(x, (ast.ListComp, ast.GeneratorExp)) for x in ast.walk(r)))]
+    ok, why = False, f"{len(seqs)} sequence-valued return(s)"
+    if len(seqs) == 1:
+        r = seqs[0]
+        inner = r
+        wrappers = []
+        while isinstance(inner, ast.Call) and isinstance(inner.func, ast.Name) and inner.func.id in ("list", "tuple", "sorted", "set", "reversed", "frozenset") and inner.args:
+            wrappers.append(inner.func.id)
+            inner = inner.args[0]
+        comp = inner if isinstance(inner, (ast.ListComp, ast.GeneratorExp)) else None
+        in_order = comp is not None and len(comp.generators) == 1 and isinstance(comp.generators[0].iter, ast.Name) and comp.generators[0].iter.id == par and not comp.generators[0].ifs
+        reorder = [w for w in wrappers if w in ("sorted", "set", "reversed", "frozenset")]
+        ok = in_order and not reorder
+        why = f"paths = [join(dir, f) for f in files] in the given order: {in_order}; re-ordering wrapper: {reorder or 'none'}"
+    zips = [c for c in ast.walk(ds.node) if isinstance(c, ast.Call) and isinstance(c.func, ast.Name) and c.func.id == "zip" and len(c.args) == 2]
+    by_pos = len(zips) == 1
+    ctx.ob("C19.g", "RL4COEnvBase:dataset-files-keep-their-order", ok and by_pos, ini.loc,
+           why + f"; dataset() pairs names and files by position (zip): {by_pos}" + ("" if ok else " -- a dataloader name (or position) then refers to another file than the one it was given for"),
+           construct="RL4COEnvBase.__init__:file-order")
+
+
+def directory_listings_sorted(ctx: Ctx):
+    """C19.h instances stored one per file come back in the order they were written only if the reader enumerates the directory
+    in a defined order: os.listdir / os.scandir / glob return entries in arbitrary (file-system) order, so every listing that
+    feeds a loader is wrapped in sorted(...)."""
+    LIST = {"os.listdir", "os.scandir", "glob.glob", "glob", "listdir", "scandir", "glob.iglob"}
+    n = 0
+    for mi in sorted(ctx.repo.modules.values(), key=lambda m: m.relpath):
+        if not (mi.relpath.startswith("rl4co/envs/") or mi.relpath.startswith("rl4co/data/")):
+            continue
+        par = {}
+        for a in ast.walk(mi.tree):
+            for c in ast.iter_child_nodes(a):
+                par[c] = a
+        for c in ast.walk(mi.tree):
+            if isinstance(c, ast.Call) and (ast.unparse(c.func) in LIST or (isinstance(c.func, ast.Attribute) and c.func.attr in ("iterdir", "glob", "rglob"))):
+                n += 1
+                up = par.get(c)
+                # directly sorted, or the iterable of a comprehension that is itself sorted
+                ok = isinstance(up, ast.Call) and isinstance(up.func, ast.Name) and up.func.id == "sorted"
+                if not ok and isinstance(up, ast.comprehension):
+                    comp = par.get(up)
+                    up2 = par.get(comp)
+                    ok = isinstance(up2, ast.Call) and isinstance(up2.func, ast.Name) and up2.func.id == "sorted"
+                    if not ok and isinstance(up2, ast.Assign) and isinstance(up2.targets[0], ast.Name):
+                        nm = up2.targets[0].id
+                        fn = up2
+                        while fn is not None and not isinstance(fn, (ast.FunctionDef, ast.Module)):
+                            fn = par.get(fn)
+                        ok = any((isinstance(x, ast.Call) and isinstance(x.func, ast.Attribute) and x.func.attr == "sort" and isinstance(x.func.value, ast.Name) and x.func.value.id == nm) or
+                                 (isinstance(x, ast.Call) and isinstance(x.func, ast.Name) and x.func.id == "sorted" and x.args and isinstance(x.args[0], ast.Name) and x.args[0].id == nm)
+                                 for x in ast.walk(fn))
+                ctx.repo.note(mi)
+                ctx.ob("C19.h", f"{mi.relpath}:{ast.unparse(c)[:40]}:sorted", ok, f"{mi.relpath}:{c.lineno}",
+                       f"{ast.unparse(c)[:60]} is enumerated in sorted order: {ok}" + ("" if ok else " -- the instances of a stored batch are read back in file-system order"),
+                       construct=f"{mi.relpath}:listing-order:{ast.unparse(c)[:40]}")
+    if n < 2:
+        raise AnalysisError(f"only {n} directory listings found in rl4co/envs and rl4co/data (FJSP and JSSP file generators have one each)")
 
 
 def no_memoised_readers(ctx: Ctx):
